@@ -924,19 +924,25 @@ fn live_late_joiner() -> Case {
     let res = std::panic::catch_unwind(|| -> std::result::Result<String, String> {
         let adv = InstanceInformation::new("late-adv".to_string()).with_ip_address(IpAddr::V4(Ipv4Addr::new(10, 1, 2, 3))).with_attribute("k".to_string(), Some("v".to_string()));
         let _sd_a = ServiceDiscovery::new(adv.clone(), "_verif15l._tcp.local", 60).map_err(|_| "not-exercised".to_string())?;
+        // a second early peer that will announce again later: the baseline that tells a lost answer from an absent network
+        let base = InstanceInformation::new("late-base".to_string()).with_ip_address(IpAddr::V4(Ipv4Addr::new(10, 1, 2, 6))).with_port(8203);
+        let mut sd_c = ServiceDiscovery::new(base, "_verif15l._tcp.local", 60).map_err(|_| "not-exercised".to_string())?;
         std::thread::sleep(Duration::from_millis(1700));
         let watcher = InstanceInformation::new("late-watch".to_string()).with_ip_address(IpAddr::V4(Ipv4Addr::new(10, 1, 2, 4))).with_port(8201);
         let sd_b = ServiceDiscovery::new(watcher, "_verif15l._tcp.local", 60).map_err(|_| "not-exercised".to_string())?;
         let deadline = Instant::now() + Duration::from_millis(2500);
         let mut last = None;
+        let mut baseline = false;
         while Instant::now() < deadline {
             std::thread::sleep(Duration::from_millis(150));
+            sd_c.announce(false);
+            baseline |= sd_b.get_known_services().iter().any(|i| i.unescaped_instance_name() == "late-base");
             if let Some(i) = sd_b.get_known_services().into_iter().find(|i| i.unescaped_instance_name() == "late-adv") {
                 if i.ip_addresses == adv.ip_addresses && i.attributes == adv.attributes { return Ok("faithful".to_string()); }
                 last = Some(inst_text(&i, &i.unescaped_instance_name()));
             }
         }
-        match last { None => Ok("not-exercised".to_string()), Some(t) => Err(format!("an instance advertised with the address 10.1.2.3, the attribute k=v and no port is known to a discoverer that started 1.7 s later as {} (advertised {})", t, inst_text(&adv, "late-adv"))) }
+        match last { None if baseline => Err("a peer that was running (and silent) before the discoverer started is never learned: the answers to the discoverer's start-up query do not reach it, while a peer that announces again is discovered".to_string()), None => Ok("not-exercised".to_string()), Some(t) => Err(format!("an instance advertised with the address 10.1.2.3, the attribute k=v and no port is known to a discoverer that started 1.7 s later as {} (advertised {})", t, inst_text(&adv, "late-adv"))) }
     });
     match res {
         Ok(Ok(s)) if s == "faithful" => { c = c.tag("sockets-alive"); }
